@@ -87,6 +87,14 @@ def build_fn(src_root, d, contract, hint_specs, tailproof, vacuity):
         raise GenError(f'anchor lost: {e}')
     ret = d.get('ret', 'r')
     sig, has_ret = name_return(f['sig'], ret)
+    if d.get('mode') == 'contract-only':
+        sig = re.sub(r'([(,]\s*)_(\s*:)', r'\1_unused\2', sig)
+        text = (f"    // ---- contract only (assumed in this unit; the body at {d['file']}:{f['line0']}-{f['line1']} is verified in another unit) ----\n"
+                '    #[verifier::external_body]\n    ' + sig.strip() + '\n' + (contract.rstrip() + '\n' if contract.strip() else '')
+                + '    { unimplemented!() }\n')
+        meta = {'file': d['file'], 'impl': d.get('impl'), 'mod': d.get('mod'), 'fn': d['fn'], 'lines': [f['line0'], f['line1']],
+                'sha256': f['sha256'], 'desugared': [], 'props': ['none'], 'assumed': True}
+        return text, meta
     sig = re.sub(r'([(,]\s*)_(\s*:)', r'\1_unused\2', sig)  # Verus needs a named parameter
     if d.get('sigsub'):
         # textual substitutions on the signature, written a=>b;c=>d (recorded in the evidence)
@@ -181,6 +189,21 @@ def check_trait(src_root, d, following_text):
 FLOAT_LIT = re.compile(r'(?<![\w.])(\d[\d_]*\.\d[\d_]*(?:[eE][+-]?\d+)?|\d[\d_]*[eE][+-]?\d+)(?:_?f64)?(?![\w.])')
 
 
+def check_struct(src_root, d, following_lines):
+    """The template's struct declaration must equal the repository's (attributes/comments/whitespace aside)."""
+    path = os.path.join(src_root, d['file'])
+    src = rsparse.strip_comments(open(path).read())
+    m = re.search(r'pub struct ' + re.escape(d['name']) + r'\b[^;{]*(\{[^}]*\}|;)', src)
+    if not m:
+        raise GenError(f"anchor lost: struct {d['name']} not found in {d['file']}")
+    # keep the struct text up to `;` (tuple struct) or the closing brace
+    norm = lambda t: re.sub(r'\s+', '', re.sub(r'///[^\n]*', '', t)).rstrip(',').replace(',}', '}')
+    repo = norm(m.group(0))
+    tm = re.search(r'pub struct ' + re.escape(d['name']) + r'\b[^;{]*(\{[^}]*\}|;)', rsparse.strip_comments('\n'.join(following_lines)))
+    if not tm or norm(tm.group(0)) != repo:
+        raise GenError(f"struct {d['name']}: template declaration differs from {d['file']}: repo `{repo}` vs template `{norm(tm.group(0)) if tm else None}`")
+
+
 def literal_axioms(bodies):
     """One axiom per float literal occurring in the extracted bodies: the literal denotes the
     IEEE double nearest to the decimal text (Python's float() and rustc agree: both round
@@ -258,7 +281,8 @@ def generate(template_path, src_root, out_path, vacuity=False):
             name = (d.get('impl') or ('mod ' + d['mod'] if 'mod' in d else d['file'])) + ' :: ' + d['fn']
             meta['obligation'] = name
             segs.append([text, meta])
-            bodies.append(text)
+            if not meta.get('assumed'):
+                bodies.append(text)
             continue
         if st.startswith('//@trait'):
             d = parse_kv(st[len('//@trait'):])
@@ -268,6 +292,11 @@ def generate(template_path, src_root, out_path, vacuity=False):
                 buf.append(lines[j])
                 j += 1
             check_trait(src_root, d, '\n'.join(buf))
+            i += 1
+            continue
+        if st.startswith('//@struct'):
+            d = parse_kv(st[len('//@struct'):])
+            check_struct(src_root, d, lines[i + 1:i + 12])
             i += 1
             continue
         if st.startswith('//@literals'):
